@@ -54,6 +54,27 @@ def _alarm(signum, frame):
     raise _Slow()
 
 
+def _sandbox():
+    """if the tree under test does call what a document names, let it happen in an empty scratch directory with no stdin"""
+    import os, tempfile
+    try:
+        d = '/var/tmp/vf-sbx-%d' % os.getppid()        # removed by the supervisor (vf/main.py) when the run ends
+        os.makedirs(d, exist_ok=True)
+        os.chdir(d)
+        fd = os.open(os.devnull, os.O_RDONLY)
+        os.dup2(fd, 0)
+    except OSError:
+        pass
+
+
+class _DocTimeout(BaseException):
+    pass
+
+
+def _doc_alarm(signum, frame):
+    raise _DocTimeout()
+
+
 CUSTOM = []
 
 
@@ -97,6 +118,9 @@ def worker_init():
     global MON, NAMES
     import vf_canary
     customise()
+    _sandbox()
+    import signal
+    signal.signal(signal.SIGALRM, _doc_alarm)
     MON = secmon.Monitor(harness_files=[__file__])
     # warm every lazy import / compiled pattern and learn the benign stdlib call set from core-tag documents only
     corpus = []
@@ -128,6 +152,8 @@ def check_doc(T, sub, case, doc, tag_kind, profile, prime=()):
     for en, fam, fn in ENTRY:
         T.evaluations += 1
         if T.trace: T.begin(case)
+        import signal
+        signal.setitimer(signal.ITIMER_REAL, 10.0)      # a document that makes the loader block (input(), sleep, a lock) is a finding, not a stuck check
         MON.arm(profile)
         try:
             try:
@@ -137,6 +163,7 @@ def check_doc(T, sub, case, doc, tag_kind, profile, prime=()):
             except BaseException as e:
                 res = ('exc', type(e).__name__, str(e)[:120])
         finally:
+            signal.setitimer(signal.ITIMER_REAL, 0)
             ev = MON.disarm()
         if ev:
             T.violation(sub, 'side-effect:' + ev[0][0], case, detail='%s on %r: %r' % (en, doc, ev[:4]))
